@@ -10,6 +10,7 @@ RULE = ("TLC evaluates Restored(id) = snapAt[id] for every returned+retained han
 
 def run(c):
     q = c.tier == "quick"
+    dkvlib.run_scripts(c, True)
     dkvlib.exhaustive(c, dkvlib.consts(Vals={1}, MaxOps=4, MaxReads=0, MaxCkpt=1, MaxReopen=1, MaxRetain=0), dkvlib.INV_CKPT,
                       "Dkv checkpoints exhaustive ops=4 ckpt=1 reopen=1")
     if not q:
